@@ -55,10 +55,12 @@ def confirm(wt, k, prop):
     src = os.path.join(wt, "seeded_out", str(k))
     patch = os.path.join(src, "patch.diff")
     readme = open(os.path.join(src, "README.md")).read()
-    m = re.search(r"((?:static-metric/)?tests/[A-Za-z0-9_]+\.rs)", readme)
-    if not m:
+    # the first test path the README names that is not an existing file of the repository (READMEs also
+    # mention the crate's own tests)
+    cands = [c for c in re.findall(r"((?:static-metric/)?tests/[A-Za-z0-9_]+\.rs)", readme) if not os.path.exists(os.path.join(wt, c))]
+    if not cands:
         print("cannot find demo placement in README"); return 2
-    demo_rel = m.group(1)
+    demo_rel = cands[0]
     pkg = ["-p", "prometheus-static-metric"] if demo_rel.startswith("static-metric/") else []
     test_name = os.path.basename(demo_rel)[:-3]
     release = ["--release"] if "--release" in readme else []
